@@ -951,8 +951,10 @@ def distinct_ranges(cls, base_scope):
 def lemma_L7(prog, res, classes=("ELF64",)):
     for (method, exact) in LOOPED:
         for cls in classes:
-            for (ws, wp) in ((True, False), (False, True)) if method == "dynamic" else ((True, False),):
-                name = f"{method}[{cls},{'sections' if ws else 'segments only'}]"
+            # dynamic(): sections only, segments only, and BOTH tables present (the segment table must be consulted only when
+            # there is no section header table at all: slice and stream have to agree on that precedence too)
+            for (ws, wp) in ((True, False), (False, True), (True, True)) if method == "dynamic" else ((True, False),):
+                name = f"{method}[{cls},{'sections and segments' if (ws and wp) else 'sections' if ws else 'segments only'}]"
                 xa = query_arg if method == "section_header_by_name" else None
                 try:
                     # with 3-entry tables the stream side starts from the (freshly opened) empty cache: an arbitrary cache pre-state
